@@ -691,3 +691,121 @@ def obs_io(ctx, k, act, d, nv, problems):
         return          # one recording source per program (the request log is per source shape)
     ctx["emit"].append({"fn": "io", "at": k, "mode": mode, "shape": shape, "ev": ev, "got": got,
                         "expect": {"shape": exp["shape"], "kind": exp["kind"], "data": exp["data"]}})
+
+
+# ------------------------------------------------------------------ C06 (equal names denote equal arrays)
+NAME_REGISTRY = {}       # per process: name or key -> descriptor first bound to it (the process history)
+
+
+def _register(kind, name, desc, events, limit):
+    prior = NAME_REGISTRY.get(name)
+    if prior is None:
+        NAME_REGISTRY[name] = desc
+        return 1
+    if len(events) < limit or prior != desc:
+        events.append({"kind": kind, "name": str(name)[:80], "desc": desc, "prior": prior})
+    return 0
+
+
+def naming_case(d, at=0, limit=400):
+    """register every expression node (all phases) and every graph key (raw and pinned graph, with block values) of d"""
+    events = []
+    new = 0
+    e = d.expr
+    trees = [e]
+    try:
+        with warnings.catch_warnings():
+            warnings.simplefilter("ignore")
+            s = e.simplify()
+            low = s.lower_completely()
+            trees += [s, low, low.fuse()]
+    except Exception:
+        pass
+    seen = set()
+    for t in trees:
+        for node in t.walk():
+            nm = getattr(node, "_name", None)
+            if nm is None or nm in seen or not hasattr(node, "chunks"):
+                continue
+            seen.add(nm)
+            try:
+                desc = {"shape": [_dim(v) for v in node.shape], "chunks": [[_dim(c) for c in ax] for ax in node.chunks],
+                        "dtype": str(node.dtype), "fp": ""}
+            except Exception:
+                continue
+            new += _register("node", nm, desc, events, limit)
+    for opt in (False, True):
+        try:
+            with warnings.catch_warnings():
+                warnings.simplefilter("ignore")
+                store, keys, _ = run_graph(fresh(d), opt)
+        except Exception:
+            continue
+        for key, v in store.items():
+            try:
+                a = np.asarray(v)
+                desc = {"shape": [int(x) for x in a.shape], "chunks": [], "dtype": str(a.dtype) if a.dtype != object else "object",
+                        "fp": graphs.fingerprint(v)}
+            except Exception:
+                continue
+            new += _register("key", repr(key), desc, events, limit)
+    return {"fn": "naming", "at": at, "ev": events, "new": new}
+
+
+def obs_naming(ctx, k, act, d, nv, problems):
+    if k != len(ctx["prog"]) - 1:
+        return
+    for c in [x for x in ctx["da_env"] if x is not None]:
+        ctx["emit"].append(naming_case(c, k))
+
+
+# ------------------------------------------------------------------ C23 (a random array is one fixed realization)
+def fpq(v):
+    """fingerprint of a value up to the fixed-point quantization of spec_value (robust to 1e-16 noise)"""
+    import hashlib
+    import json as _json
+
+    sv = spec_value(v)
+    return hashlib.blake2b(_json.dumps([sv["shape"], sv["kind"], sv["data"]]).encode(), digest_size=6).hexdigest()
+
+
+def realization_case(ctx, k, d, nv):
+    import cloudpickle as pickle
+
+    from .replay import make_random
+
+    bases = ctx.get("random_bases", [])
+    if not bases:
+        return None
+    import dask_array as da
+
+    ev = []
+
+    def add(what, f, want):
+        try:
+            with warnings.catch_warnings():
+                warnings.simplefilter("ignore")
+                ev.append({"what": what, "fp": fpq(f()), "want": want})
+        except Exception as ex:
+            ev.append({"what": what, "fp": f"raised {type(ex).__name__}: {str(ex)[:80]}", "want": want})
+
+    want_d = fpq(nv)
+    # derived collection first (before the base is computed again), optimized and raw
+    add("derived", lambda: run_graph(fresh(d), True)[2], want_d)
+    add("derived-raw-graph", lambda: run_graph(fresh(d), False)[2], want_d)
+    add("derived-compute", lambda: fresh(d).compute(scheduler="sync"), want_d)
+    for kb, act, base, real in bases:
+        want_b = fpq(real)
+        add("base-recompute", lambda: base.compute(scheduler="sync"), want_b)
+        add("base-fresh-collection", lambda: run_graph(fresh(base), True)[2], want_b)
+        add("rebuild-same-seed", lambda: make_random(da, act).compute(scheduler="sync"), want_b)
+        add("base-pickle-roundtrip", lambda: pickle.loads(pickle.dumps(base)).compute(scheduler="sync"), want_b)
+    add("derived-again-after-base", lambda: run_graph(fresh(d), True)[2], want_d)
+    add("derived-pickle-roundtrip", lambda: pickle.loads(pickle.dumps(d)).compute(scheduler="sync"), want_d)
+    return {"fn": "realization", "at": k, "ev": ev}
+
+
+def obs_realization(ctx, k, act, d, nv, problems):
+    c = realization_case(ctx, k, d, nv)
+    if c is not None:
+        ctx["emit"].append(c)
